@@ -1105,6 +1105,32 @@ pub fn run(ctx: &Ctx) -> i32 {
                 }
             }
         }
+        // every declared name (identifier followed by ':' or by '(' after fn / before a payload) replaced
+        // by every other declared name of the same program: duplicate fields, parameters, variants
+        'd: for b in &bases {
+            if ctx.past(0.41) {
+                a_complete = false;
+                break 'd;
+            }
+            let decls: Vec<usize> = (0..b.toks.len().saturating_sub(1))
+                .filter(|i| {
+                    let t = &b.src[b.toks[*i].0..b.toks[*i].1];
+                    let next = &b.src[b.toks[*i + 1].0..b.toks[*i + 1].1];
+                    t.bytes().all(|c| c.is_ascii_alphanumeric() || c == b'_') && !t.as_bytes()[0].is_ascii_digit() && (next == ":" || next == "(" || next == "," || next == "}")
+                })
+                .collect();
+            if decls.len() > 60 {
+                continue;
+            }
+            for i in &decls {
+                for j in &decls {
+                    let (ti, tj) = (&b.src[b.toks[*i].0..b.toks[*i].1], &b.src[b.toks[*j].0..b.toks[*j].1]);
+                    if ti != tj && mine(&mut k) {
+                        f.prog("declared name replaced by another declared name", &b.origin, splice(&b.src, b.toks[*i].0, b.toks[*i].1, tj), b.compile);
+                    }
+                }
+            }
+        }
         // line-level edits: deletion, duplication, adjacent swap of every line
         'l: for b in &bases {
             if ctx.past(0.42) {
@@ -1133,7 +1159,7 @@ pub fn run(ctx: &Ctx) -> i32 {
             }
         }
         f.flush();
-        for c in ["character prefix", "token prefix", "token deletion", "token duplication", "adjacent token swap", "line deletion", "line duplication", "adjacent line swap"] {
+        for c in ["character prefix", "token prefix", "token deletion", "token duplication", "adjacent token swap", "declared name replaced by another declared name", "line deletion", "line duplication", "adjacent line swap"] {
             f.st.exhaustive_classes.insert(c, a_complete);
         }
 
